@@ -1028,3 +1028,136 @@ func init() {
 		r.Check(n > 0, "DiskManagerImpl.WritePage:advances-nextPageID", "writing a page beyond nextPageID moves nextPageID past it", "no store to nextPageID derived from the pageID parameter in DiskManagerImpl.WritePage")
 	})
 }
+
+func init() {
+	reg("C01-R10", "a log record is decoded only when it lies completely inside the chunk that was read: in DeserializeLogRecord no payload decode (Tuple.DeserializeFrom, binary.Read behind the header) is reachable once the edge on which len(data) >= record size holds is removed; and Redo's chunk loop makes progress or stops: with the buffer offset assumed 0 after the inner loop, the next ReadLog is unreachable (a torn record at the tail of the log ends recovery instead of spinning)", func(w *World, r *Report) {
+		a := w.A()
+		_ = a
+		de := w.Fn("recovery/log_recovery", "LogRecovery", "DeserializeLogRecord")
+		sizeFld := w.Field("recovery", "LogRecord", "Size")
+		var dataP *ssa.Parameter
+		for _, p := range de.Params {
+			if _, ok := p.Type().Underlying().(*types.Slice); ok {
+				dataP = p
+			}
+		}
+		if dataP == nil {
+			fatalf("DeserializeLogRecord has no slice parameter")
+		}
+		isLenData := func(v ssa.Value) bool {
+			return DependsOn(v, func(x ssa.Value) bool {
+				c, ok := x.(*ssa.Call)
+				if !ok {
+					return false
+				}
+				b, ok := c.Call.Value.(*ssa.Builtin)
+				return ok && b.Name() == "len" && c.Call.Args[0] == ssa.Value(dataP)
+			})
+		}
+		isSize := func(v ssa.Value) bool { return DependsOn(v, func(x ssa.Value) bool { return fieldLoadOf(x, sizeFld) }) }
+		// the edge on which "len(data) >= Size" holds
+		complete := func(b *ssa.BasicBlock, succ int) bool {
+			i := blockIf(b)
+			if i == nil {
+				return false
+			}
+			v, neg := condBase(i.Cond)
+			bo, ok := v.(*ssa.BinOp)
+			if !ok {
+				return false
+			}
+			var enoughWhenTrue bool
+			switch {
+			case bo.Op == token.LSS && isLenData(bo.X) && isSize(bo.Y) && !isSize(bo.X): // len < size
+				enoughWhenTrue = false
+			case bo.Op == token.GTR && isSize(bo.X) && isLenData(bo.Y) && !isSize(bo.Y): // size > len
+				enoughWhenTrue = false
+			case bo.Op == token.GEQ && isLenData(bo.X) && isSize(bo.Y) && !isSize(bo.X): // len >= size
+				enoughWhenTrue = true
+			case bo.Op == token.LEQ && isSize(bo.X) && isLenData(bo.Y) && !isSize(bo.Y): // size <= len
+				enoughWhenTrue = true
+			default:
+				return false
+			}
+			binTrue := (succ == 0) != neg
+			return binTrue == enoughWhenTrue
+		}
+		r.Floor("record-fits-in-chunk tests in DeserializeLogRecord", countCutEdges(de, []EdgeCut{complete}), 1)
+		desFrom := w.MethodObj("storage/tuple", "Tuple", "DeserializeFrom")
+		isPayload := func(in ssa.Instruction) bool {
+			c, ok := in.(*ssa.Call)
+			if !ok {
+				return false
+			}
+			if CalleeObj(c) == desFrom {
+				return true
+			}
+			// binary.Read(bytes.NewBuffer(data[pos:]) …) with pos > 0
+			if f := c.Call.StaticCallee(); f != nil && f.Pkg != nil && f.Pkg.Pkg.Path() == "bytes" && f.Name() == "NewBuffer" {
+				if sl, ok := c.Call.Args[0].(*ssa.Slice); ok && sl.X == ssa.Value(dataP) && sl.Low != nil {
+					return true
+				}
+			}
+			return false
+		}
+		n := 0
+		for _, b := range de.Blocks {
+			for _, in := range b.Instrs {
+				if isPayload(in) {
+					n++
+				}
+			}
+		}
+		r.Floor("payload decodes in DeserializeLogRecord", n, 5)
+		wit := (&PathQ{Fn: de, Cut: []EdgeCut{complete}, Target: isPayload}).FromEntry()
+		r.Check(wit == nil, "DeserializeLogRecord:payload-decoded-only-from-a-complete-record", "the payload of a record is decoded only after the record was found to lie inside the data", "payload decode reachable without the test len(data) >= record size (a record crossing the end of the read buffer is decoded from a short slice): "+w.DescribeWitness(de, wit))
+		// Redo: progress or stop
+		redo := w.Fn("recovery/log_recovery", "LogRecovery", "Redo")
+		deser := w.MethodObj("recovery/log_recovery", "LogRecovery", "DeserializeLogRecord")
+		readLog := w.family(w.MethodObj("storage/disk", "DiskManager", "ReadLog"))
+		var bufOff ssa.Value
+		var dsites []ssa.Instruction
+		for _, s := range sitesCalling(redo, deser) {
+			dsites = append(dsites, s)
+			c := s.(*ssa.Call)
+			if sl, ok := c.Call.Args[1].(*ssa.Slice); ok && sl.Low != nil {
+				bufOff = stripConv(sl.Low)
+			}
+		}
+		r.Floor("DeserializeLogRecord calls in Redo", len(dsites), 1)
+		assumeZero := func(b *ssa.BasicBlock, succ int) bool {
+			i := blockIf(b)
+			if i == nil || bufOff == nil {
+				return false
+			}
+			v, neg := condBase(i.Cond)
+			bo, ok := v.(*ssa.BinOp)
+			if !ok || (bo.Op != token.EQL && bo.Op != token.NEQ && bo.Op != token.GTR) {
+				return false
+			}
+			isOff := func(x ssa.Value) bool { return stripConv(x) == bufOff }
+			isZero := func(x ssa.Value) bool {
+				cv, ok := constOf(x)
+				if !ok {
+					return false
+				}
+				iv, ok := constant.Int64Val(constant.ToInt(cv))
+				return ok && iv == 0
+			}
+			if !((isOff(bo.X) && isZero(bo.Y)) || (isOff(bo.Y) && isZero(bo.X) && bo.Op != token.GTR)) {
+				return false
+			}
+			binTrue := (succ == 0) != neg
+			zeroWhenTrue := bo.Op == token.EQL
+			return binTrue != zeroWhenTrue // remove the non-zero edge
+		}
+		r.Floor("no-progress tests in Redo", countCutEdges(redo, []EdgeCut{assumeZero}), 1)
+		// from the failing DeserializeLogRecord (loop exit) to the next ReadLog
+		deserFalse := CutWhen(IsCallTo(deser), true)
+		wit = (&PathQ{Fn: redo, Cut: []EdgeCut{assumeZero, deserFalse}, Target: func(in ssa.Instruction) bool {
+			c, ok := in.(ssa.CallInstruction)
+			return ok && CalleeObj(c) != nil && readLog[CalleeObj(c)]
+		}}).FromAfter(dsites)
+		r.Check(wit == nil, "Redo:chunk-loop-progresses-or-stops", "when no complete record was found in a chunk Redo stops reading", "with the buffer offset assumed 0 the next ReadLog is reached (same offset again: endless loop on a torn tail): "+w.DescribeWitness(redo, wit))
+	})
+}
